@@ -147,6 +147,28 @@ Cancel(t) ==
   /\ UNCHANGED <<pstate, tq, tw, nsusp, tres, runningTasks, wst, wtask, rq, ctr, spc, cur, stopping, waits, pending,
                  wpc, notified, accepted, viol>>
 
+\* try_cancel_task called from inside a run slice: the running task (or, indistinguishably, another thread during that
+\* slice) asks for the cancellation of another task. A target that has started and is suspended is not on any thread:
+\* its coroutine is marked, nothing else happens. Named deviation "suspended_looks_on_cpu" (seeded/C13-2): the target's
+\* coroutine still counts as executing on the thread that ran it last, the cancel signal goes to that thread and hits the
+\* task that is running there now - the caller itself.
+CancelFromTask(t) ==
+  /\ Go /\ spc = "in" /\ wtask[cur] # 0 /\ t # wtask[cur] /\ tst[t] \in {"queued", "running"} /\ t \notin cancelTasks
+  /\ hist' = Append(hist, [a |-> "body", t |-> wtask[cur], step |-> "cancel_task", target |-> t]) /\ UNCHANGED nops
+  /\ IF t \in runningTasks /\ Dev("suspended_looks_on_cpu")
+     THEN \* the signal cancels the current coroutine: the caller's task is lost with its worker
+          /\ tst' = [tst EXCEPT ![wtask[cur]] = "orphaned"]
+          /\ wst' = [wst EXCEPT ![cur] = "dropped"] /\ ctr' = ctr - 1 /\ wtask' = [wtask EXCEPT ![cur] = 0]
+          /\ runningTasks' = runningTasks \ {wtask[cur]}
+          /\ cur' = 0 /\ spc' = "loop"
+          /\ UNCHANGED <<cancelTasks, cancelCo>>
+     ELSE /\ IF t \in runningTasks
+             THEN cancelCo' = cancelCo \cup {tw[t]} /\ UNCHANGED cancelTasks
+             ELSE cancelTasks' = cancelTasks \cup {t} /\ UNCHANGED cancelCo
+          /\ tst' = [tst EXCEPT ![t] = IF @ = "queued" THEN "cqueued" ELSE "crunning"]
+          /\ UNCHANGED <<wst, ctr, wtask, runningTasks, cur, spc>>
+  /\ UNCHANGED <<pstate, tq, tw, nsusp, tres, rq, stopping, waits, pending, wpc, notified, accepted, viol>>
+
 \* the task's join handle is dropped before the task has ended (JoinHandle::drop -> clean_task_result):
 \* nobody will ask for the result
 Abandon(t) ==
@@ -371,7 +393,7 @@ W4(t) == /\ Go /\ wpc[t] = "W4" /\ NoLog /\ Take(t, "timeout")
                         stopping, waits, pending, notified, accepted, viol>>
 
 Next ==
-  \/ \E t \in T : Submit(t) \/ Cancel(t) \/ Abandon(t) \/ WaitStart(t) \/ W1(t) \/ W2(t) \/ W2b(t) \/ W3wake(t) \/ W3timeout(t) \/ W3deadline(t) \/ W4(t)
+  \/ \E t \in T : Submit(t) \/ Cancel(t) \/ CancelFromTask(t) \/ Abandon(t) \/ WaitStart(t) \/ W1(t) \/ W2(t) \/ W2b(t) \/ W3wake(t) \/ W3timeout(t) \/ W3deadline(t) \/ W4(t)
   \/ StopBegin \/ StopEnd(TRUE) \/ StopEnd(FALSE) \/ BadSpawn
   \/ PassBegin \/ PickWorker \/ WorkerPop \/ TaskSuspend \/ TaskDelay \/ TaskFinish \/ Notify
   \/ \E w \in W : TimerFire(w)
